@@ -77,6 +77,10 @@ class C10(Check):
         for kind in ("iter", "from_data_owned", "from_data_kept"):
             for first in range(4):
                 out.append({"kind": kind, "steps": k, "first": first})
+        # cached iterators (definite frame count 2; a fifth operation invalidates the cache)
+        for kind in ("iter", "from_data_owned"):
+            for first in (0, 1):
+                out.append({"kind": kind, "steps": k + 1, "first": first, "cache": True, "n": 2})
         out.append({"kind": "render"})
         out.append({"kind": "str"})
         out.append({"kind": "draw_still"})
@@ -160,19 +164,19 @@ class C10(Check):
             loops = eng.int("loops")
             eng.assume(loops != 0)
             if kind == "iter":
-                it = K["RenderIterator"](r, None, P.ExactPadding(), loops, False)
+                it = K["RenderIterator"](r, None, P.ExactPadding(), loops, bool(shape.get("cache")))
             else:
                 data = r._get_render_data_(iteration=True)
                 fin = kind == "from_data_owned"
-                it = K["RenderIterator"]._from_render_data_(r, data, None, P.ExactPadding(), loops, False, finalize=fin)
+                it = K["RenderIterator"]._from_render_data_(r, data, None, P.ExactPadding(), loops, bool(shape.get("cache")), finalize=fin)
                 if not fin:
                     kept.append(data)
             closed_expected = False
             for i in range(shape["steps"]):
-                op = shape["first"] if i == 0 else eng.choice(f"op{i}", 4)
+                op = shape["first"] if i == 0 else eng.choice(f"op{i}", 5 if shape.get("cache") else 4)
                 if it is None:
                     break
-                eng.step(("next", "seek", "close", "drop")[op])
+                eng.step(("next", "seek", "close", "drop", "set_render_size")[op])
                 if op == 0:
                     try:
                         next(it)
@@ -193,9 +197,18 @@ class C10(Check):
                     it.close()
                     it.close()
                     closed_expected = True
+                elif op == 4:
+                    try:
+                        it.set_render_size(G._Size(eng.int(f"new_w{i}", 1), eng.int(f"new_h{i}", 1)))
+                        if closed_expected:
+                            eng.claim("control operation on a finished iterator must raise", False)
+                    except K["IT"].FinalizedIteratorError:
+                        eng.claim("FinalizedIteratorError only after exhaustion, close or an error", closed_expected)
                 else:
                     it = None  # drop the last reference
                     gc.collect()
+                if it is not None and not closed_expected:
+                    eng.claim("render data is not finalized while its iterator is still open (not exhausted, closed or failed)", not any(d.finalized for d in r.data_objects))
                 if it is not None and closed_expected:
                     stopped = False
                     try:
